@@ -3,6 +3,7 @@ import TrionModel.Lemmas.ShowText
 import TrionModel.Lemmas.ShowDec
 import TrionModel.Model.Asm
 import TrionModel.Lemmas.ShowParts
+import TrionModel.Lemmas.ShowProg
 import TrionModel.Props.C09
 import TrionModel.Props.C01
 /-!
@@ -195,6 +196,36 @@ theorem show_text_roundtrip (bs : List Nat) (hb : Codec.IsBytes bs) (n : Nat) (i
   subst hi
   obtain ⟨wf, _, _⟩ := Codec.decode_wf bs hb n i' h
   exact ⟨lo, _, _, hws, h1, h2, h3, by rw [toList_ofList]; exact hbld, he, hn, hd, Codec.enc_sound i' hws he wf⟩
+
+
+/-- C19.l  **Through the whole pipeline model.** `progText i a` (`Lemmas/ShowProg.lean`) is the program
+`.addr <a>;` ⏎ [`.const l_XXXXXXXX, <target>;` ⏎ — only if the text mentions a label] `<Show.text i a>`.
+For bytes that decode to `i` (`n` of them), an address `a` at which the PC-relative target lies inside the address
+space and `a + n ≤ 2^32`: `Asm.run` — tokenizer, parser, `.addr`, `.const`, the instruction statement with the real
+evaluator model over the real constant table, front end, encoder, output regions, local task loop, `close_segment`,
+`finalize` — on any file system whose main file is that program SUCCEEDS, records NO diagnostic, and its image is
+exactly one region: the canonical encoding of `i` (same length `n`, decodes to `i`, and is the ARMv6-M table's
+encoding of `i`) at address `a`. -/
+theorem show_run (bs : List Nat) (hb : Codec.IsBytes bs) (n : Nat) (i : Instr)
+    (h : Codec.decode bs = .ok (n, i)) (a : Nat) (ht : targetInRange i a) (hfit : a + n ≤ 4294967296)
+    (fs : Bytes → Option Bytes) (main : Bytes) (hfs : fs main = some (progText i a)) :
+    ∃ hws, Codec.encode i = .ok hws ∧ 2 * hws.length = n ∧ Codec.decode (Codec.toBytes hws) = .ok (n, i) ∧
+      Arm.decode hws = some i ∧
+      Asm.run fs main = .done ⟨true, none, true, [], [(a, (Codec.toBytes hws).map (·.toUInt8))]⟩ := by
+  obtain ⟨i', hws, hbld, hi, he, hn, hd⟩ := show_roundtrip bs hb n i h a ht (fun x => (progTable i a).get x)
+    (Asm.frontEval (progTable i a)) (frontEval_isSimp _) true (progTable_get i a)
+  subst hi
+  obtain ⟨wf, _, _⟩ := Codec.decode_wf bs hb n i' h
+  have hlen := (Codec.enc_len i' hws he wf).1
+  exact ⟨hws, he, hn, hd, Codec.enc_sound i' hws he wf,
+    run_prog i' a (decoded_litOk bs hb n i' h) hws he hlen (by omega) hbld fs main hfs⟩
+
+/-- non-vacuity: the program for `BEQ` back to its own address (`0xFE 0xD0` at 0x20000000) -/
+example : progText (.b 0 (-4)) 0x20000000 = bytesOf ".addr 536870912;\n.const l_20000000, 536870912;\nBEQ l_20000000;" ∧
+    Codec.decode [0xFE, 0xD0] = .ok (2, .b 0 (-4)) ∧ targetInRange (.b 0 (-4)) 0x20000000 := by
+  refine ⟨by decide, rfl, ?_⟩
+  simp [targetInRange, Front.pcOf]
+example : progText (.nop) 8 = bytesOf ".addr 8;\nNOP;" := by decide
 
 /-- non-vacuity / the columns: `LDR R1, [SP + 8];` -/
 example : text (.ldr 1 13 (.imm 8)) 0 = bytesOf "LDR R1, [SP + 8];" ∧
